@@ -200,6 +200,10 @@ def run(run):
         M.uninstall_contract(cstate)
         shutil.rmtree(scratch, ignore_errors=True)
     run.count("contract_evaluations_expand_run_space", cstate["evaluations"])
+    if run.tier == "thorough" and run.shard[0] == 0:
+        from vlib import suite
+
+        suite.run_suite_with_contracts(run, "runspace")   # the repository's own tests as extra workload for the contract
     run.count("contract_compared_expand_run_space", cstate["compared"])
     run.count("contract_skipped_expand_run_space", cstate["skipped"])
     if cstate.get("oracle_errors"):
